@@ -1,8 +1,8 @@
-\* C14 leg A thorough (inductive): object sizes 0..7, subrange sizes 1..4, max sub-requests 0..2
+\* C14 leg A thorough (inductive): object sizes 0..6, subrange sizes 1..4, max sub-requests 0..2
 \* (0 = unlimited), max cacheable Get size 2 or 8; one read (any op, any offset/length) from EVERY
 \* sound cache content, plus evictions
 SPECIFICATION Spec
-CONSTANTS Sizes = {0, 1, 2, 3, 4, 5, 6, 7}
+CONSTANTS Sizes = {0, 1, 2, 3, 4, 5, 6}
           SubSizes = {1, 2, 3, 4}
           MaxSubs = {0, 1, 2}
           MaxCacheables = {2, 8}
